@@ -81,6 +81,41 @@ def _ctx(table, onames, anames, backend):
                          backend=backend)
 
 
+def _ctx_hist(case):
+    """The case's context, reached through its rename history if it has one: built under other
+    names, used (K.T / a CbO lattice / ~K / a monotone lattice), then renamed with the setters in
+    the recorded order.  The FINAL context is always (table, onames, anames) of the case."""
+    t, on, an, be = case['table'], case['onames'], case['anames'], case['backend']
+    h = case.get('hist')
+    if not h:
+        return _ctx(t, on, an, be)
+    K = _ctx(t, h['on0'], h['an0'], be)
+    for wu in h['warm']:
+        if wu == 'T':
+            K.T
+        elif wu == 'TT':
+            K.T.T
+        elif wu == 'cbo':
+            _lattice(K, 'CbO')
+        elif wu == 'inv':
+            ~K
+        elif wu == 'mono':
+            _lattice(K, None, is_monotone=True)
+    for ax in h['set']:
+        if ax == 'o':
+            K.object_names = list(on)
+        else:
+            K.attribute_names = list(an)
+    return K
+
+
+def _by_name(names_in, idx, fn, names_out):
+    """fn([names_in[i] for i in idx]) mapped back to indexes of names_out (names are distinct)."""
+    pos = {s: k for k, s in enumerate(names_out)}
+    res = fn([names_in[i] for i in idx])
+    return [pos.get(s, 4999) for s in res]
+
+
 def _ctx_d(K):
     return [canon(K.data.to_list()), list(K.object_names), list(K.attribute_names)]
 
@@ -170,7 +205,7 @@ def run_impl(case):
     algo = case.get('algo')
 
     def go():
-        K = _ctx(t, on, an, be)
+        K = _ctx_hist(case)
         if kind == 'trans':
             KT = K.T
             KTT = KT.T
@@ -178,10 +213,19 @@ def run_impl(case):
         if kind == 'primes':
             KT = K.T
             xs, ys = sublists(list(range(len(t)))), sublists(list(range(len(t[0]) if t else 0)))
+            bA, bO = case.get('basesA') or [], case.get('basesO') or []
             return {'eT': [canon(KT.extension_i(list(x))) for x in xs],
                     'iT': [canon(KT.intention_i(list(y))) for y in ys],
                     'iK': [canon(K.intention_i(list(x))) for x in xs],
-                    'eK': [canon(K.extension_i(list(y))) for y in ys]}
+                    'eK': [canon(K.extension_i(list(y))) for y in ys],
+                    # by name: objects of K.T are called like the attributes of K and vice versa
+                    'eTn': [_by_name(on, x, KT.extension, an) for x in xs],
+                    'iTn': [_by_name(an, y, KT.intention, on) for y in ys],
+                    # restricted to a base set, on both sides of the duality
+                    'eTb': [[canon(KT.extension_i(list(x), base_objects_i=list(b))) for x in xs] for b in bA],
+                    'iKb': [[canon(K.intention_i(list(x), base_attrs_i=list(b))) for x in xs] for b in bA],
+                    'iTb': [[canon(KT.intention_i(list(y), base_attrs_i=list(b))) for y in ys] for b in bO],
+                    'eKb': [[canon(K.extension_i(list(y), base_objects_i=list(b))) for y in ys] for b in bO]}
         if kind == 'latT':
             lf = bool(case.get('leq_first'))
             L = _build(K, case)
@@ -302,9 +346,12 @@ def to_coq(case, out):
             if kind in ('trans', 'compl'):
                 o = '(IOk (%s, %s, %s))' % (_ctx_term(d, v['a']), _ctx_term(d, v['b']), _ires_bool(v['eq']))
             elif kind == 'primes':
-                if not all(all(_idx_ok(x) for x in v[f]) for f in ('eT', 'iT', 'iK', 'eK')):
+                if not all(all(_idx_ok(x) for x in v[f]) for f in ('eT', 'iT', 'iK', 'eK', 'eTn', 'iTn')):
                     raise _Bad()
-                o = '(IOk (%s, %s, %s, %s))' % (coq(v['eT']), coq(v['iT']), coq(v['iK']), coq(v['eK']))
+                if not all(all(all(_idx_ok(x) for x in per) for per in v[f]) for f in ('eTb', 'iKb', 'iTb', 'eKb')):
+                    raise _Bad()
+                o = '(IOk (%s, %s, %s, %s, (%s, %s), (%s, %s, %s, %s)))' % tuple(
+                    coq(v[f]) for f in ('eT', 'iT', 'iK', 'eK', 'eTn', 'iTn', 'eTb', 'iKb', 'iTb', 'eKb'))
             elif kind == 'latT':
                 o = '(IOk (%s, %s, %s))' % (_lat_term(d, v['L']), _lat_term(d, v['LT']), _lat_term(d, v['L2']))
             elif kind == 'relabel':
@@ -322,7 +369,8 @@ def to_coq(case, out):
     if kind == 'trans':
         return 'CTrans %s %s %s %s' % (b, strs, k, o)
     if kind == 'primes':
-        return 'CPrimes %s %s %s' % (b, coq(case['table']), o)
+        return 'CPrimes %s %s %s %s %s' % (b, coq(case['table']), coq(case.get('basesA') or []),
+                                           coq(case.get('basesO') or []), o)
     if kind == 'latT':
         return 'CLatT %s %s %s %s' % (b, strs, k, o)
     if kind == 'compl':
@@ -360,7 +408,10 @@ def stats(case):
     t = case['table']
     return {'kind': case['kind'], 'shape': '%dx%d' % (len(t), len(t[0]) if t else 0), 'backend': case['backend'],
             'algo': str(case.get('algo')), 'table_kind': case.get('tkind', ''), 'names': _names_class(case),
-            'warm_up': '+'.join(q for q, _, _ in (case.get('warm') or [])) or 'none'}
+            'warm_up': '+'.join(q for q, _, _ in (case.get('warm') or [])) or 'none',
+            'rename_history': ('none' if not case.get('hist') else
+                               '+'.join(case['hist']['warm']) + '/set:' + ''.join(case['hist']['set'])),
+            'bases': len(case.get('basesA') or []) + len(case.get('basesO') or [])}
 
 
 # ------------------------------------------------------------------ generation
@@ -435,7 +486,35 @@ def random_case(rng, kind, max_dim, broken=False):
             on2, an2 = [on[i] for i in ps], [an[j] for j in pc]
         extra = {'ps': ps, 'pc': pc, 'onames2': on2, 'anames2': an2}
     extra.update(warm_extra)
+    if kind == 'primes':
+        extra['basesA'] = random_bases(rng, w)
+        extra['basesO'] = random_bases(rng, h)
+    if kind != 'relabel' and rng.random() < 0.5:
+        extra['hist'] = random_hist(rng, kind, on, an)
     return _mk(kind, be, t, on, an, algo, tkind, **extra)
+
+
+def random_bases(rng, n):
+    """A few duplicate-free base sets over range(n): empty, sorted subset, unsorted subset, reversed full."""
+    out = [[]] if rng.random() < 0.3 else []
+    k = rng.randint(1, n)
+    out.append(sorted(rng.sample(range(n), k)))
+    p = rng.sample(range(n), rng.randint(1, n))
+    out.append(p)
+    if rng.random() < 0.5:
+        out.append(list(reversed(range(n))))
+    return out
+
+
+def random_hist(rng, kind, on, an):
+    """Other initial names for the axes that will be renamed, a use of the context, the setter order."""
+    order = rng.choice([['o'], ['a'], ['a'], ['o', 'a'], ['a', 'o']])
+    on0 = ['old g%d' % i for i in range(len(on))] if 'o' in order else list(on)
+    an0 = [('not old m%d' if i % 2 else 'old m%d') % i for i in range(len(an))] if 'a' in order else list(an)
+    pool = {'trans': ['T', 'TT', 'cbo'], 'primes': ['T', 'cbo'], 'latT': ['T', 'cbo', 'TT'],
+            'compl': ['inv', 'T'], 'mono': ['inv', 'mono', 'T']}[kind]
+    warm = rng.sample(pool, rng.randint(1, len(pool)))
+    return {'on0': on0, 'an0': an0, 'warm': warm, 'set': order}
 
 
 def small_tables(max_h=3, max_w=3):
@@ -452,7 +531,9 @@ def exhaustive_cases():
         an_not = ['not ' + m if j % 2 == 0 else m for j, m in enumerate(an)]
         for be in BACKENDS:
             yield _mk('trans', be, t, on, an, tkind='exhaustive')
-            yield _mk('primes', be, t, on, an, tkind='exhaustive')
+            yield _mk('primes', be, t, on, an, tkind='exhaustive',
+                      basesA=[list(reversed(range(w))), list(range(0, w, 2))],
+                      basesO=[list(reversed(range(h))), list(range(h - 1, h))])
             yield _mk('compl', be, t, on, an_not, tkind='exhaustive')
             for algo in ('CbO', 'Lindig'):      # algo=None is Lindig for a FormalContext
                 # one parents query on a position that varies with the table, before L.T
@@ -510,10 +591,18 @@ def generate(rng, tier):
 
 # ------------------------------------------------------------------ shrinking
 
+def _reindex_bases(bases, i):
+    return [[x - 1 if x > i else x for x in b if x != i] for b in (bases or [])]
+
+
 def _drop_row(case, i):
     c = dict(case)
     c['table'] = [r for k, r in enumerate(case['table']) if k != i]
     c['onames'] = [s for k, s in enumerate(case['onames']) if k != i]
+    if case.get('basesO') is not None:
+        c['basesO'] = _reindex_bases(case['basesO'], i)
+    if case.get('hist'):
+        c['hist'] = dict(case['hist'], on0=[s for k, s in enumerate(case['hist']['on0']) if k != i])
     if case['kind'] == 'relabel':
         pos = case['ps'].index(i)
         c['ps'] = [x - 1 if x > i else x for k, x in enumerate(case['ps']) if k != pos]
@@ -525,6 +614,10 @@ def _drop_col(case, j):
     c = dict(case)
     c['table'] = [[v for k, v in enumerate(r) if k != j] for r in case['table']]
     c['anames'] = [s for k, s in enumerate(case['anames']) if k != j]
+    if case.get('basesA') is not None:
+        c['basesA'] = _reindex_bases(case['basesA'], j)
+    if case.get('hist'):
+        c['hist'] = dict(case['hist'], an0=[s for k, s in enumerate(case['hist']['an0']) if k != j])
     if case['kind'] == 'relabel':
         pos = case['pc'].index(j)
         c['pc'] = [x - 1 if x > j else x for k, x in enumerate(case['pc']) if k != pos]
@@ -550,7 +643,7 @@ def shrink(case):
     for key, pre in (('onames', 'g'), ('anames', 'm')):
         for k, s in enumerate(case[key]):
             simple = '%s%d' % (pre, k)
-            if s != simple and simple not in case[key]:
+            if s != simple and simple not in case[key] and not case.get('hist'):
                 c = dict(case)
                 c[key] = [simple if q == k else v for q, v in enumerate(case[key])]
                 if case['kind'] == 'relabel' and case.get(key + '2') is not None:
@@ -558,6 +651,15 @@ def shrink(case):
                     if s in case[key + '2'] and [case[key][x] for x in p] == case[key + '2']:
                         c[key + '2'] = [c[key][x] for x in p]
                 out.append(c)
+    if case.get('hist'):
+        c = dict(case)
+        c['hist'] = None
+        out.append(c)
+    for key in ('basesA', 'basesO'):
+        for k in range(len(case.get(key) or [])):
+            c = dict(case)
+            c[key] = case[key][:k] + case[key][k + 1:]
+            out.append(c)
     warm = case.get('warm') or []
     for k in range(len(warm)):
         c = dict(case)
